@@ -87,3 +87,29 @@ Print Assumptions C17_solution_scales.
 Example C17_nonvacuous : stencil_ok QcOps ex_C2 /\ bc_ok QcOps ex_C2 ex_bc
   /\ (forall c, interior QcOps ex_C2 c = true -> fac_ok QcOps ex_C2 c).
 Proof. split; [exact ex_C2_stencil_ok|split; [exact ex_C2_bc_ok|exact ex_C2_fac_ok]]. Qed.
+
+(* the TVD correction vector itself: with u -> (L/T) u and field -> K field on the rescaled grid every axis-row of the vector
+   is K/T times the original row, for ANY limiter (it only sees the dimensionless gradient ratio) and any zero guard that commutes
+   with the change of units on the face gradients that occur (tvd_face_ok); the code's guard _fsign does so exactly when the
+   gradient is above its absolute threshold 1e-16 in both unit systems (C17_guard_commutes_above_threshold): below it the property
+   fails for the code as written, which the search on the implementation leaves outside its range *)
+From PFV Require Import Limiters LimiterThy CorrLib.
+From Coq Require Import Reals ZArith QArith Qcanon.
+Theorem C17_tvd_rows_scale : forall (F : FieldOps) (L : FieldLaws F) (Lc Tc : F), Lc <> k0 F -> Tc <> k0 F ->
+  forall (m : Mesh F) (fsgn FLim : F -> F) (Kc : F), Kc <> k0 F ->
+  forall (u uup : fvar F) (phi : cvar F) a c, fac_ok F m c -> mW F m a (cidx a c) <> k0 F ->
+  tvd_face_ok F Lc m fsgn Kc phi a c -> tvd_face_ok F Lc m fsgn Kc phi a (cdn a c) ->
+  tvdrow F fsgn FLim (scale_mesh F Lc m) (scaleU F Lc Tc u) uup (fun c => kmul F Kc (phi c)) a c
+  = kdiv F (kmul F Kc (tvdrow F fsgn FLim m u uup phi a c)) Tc.
+Proof. intros F L Lc Tc HL HT m fsgn FLim Kc HK u uup phi a c. exact (tvdrow_scale F L Lc Tc HL HT m fsgn FLim Kc HK u uup phi a c). Qed.
+Print Assumptions C17_tvd_rows_scale.
+Theorem C17_guard_commutes_above_threshold : forall eps1 g x : R, (0 < eps1)%R -> (eps1 <= Rabs x)%R -> (eps1 <= Rabs (g * x))%R ->
+  fsign ROps eps1 (g * x)%R = (g * fsign ROps eps1 x)%R.
+Proof. exact fsign_commutes_above_threshold. Qed.
+Print Assumptions C17_guard_commutes_above_threshold.
+(* non-vacuity of tvd_face_ok: the graded r-z example grid, length unit 1/1000, field unit 7, a quadratic field, identity guard *)
+Example C17_tvd_nonvacuous :
+  tvd_face_ok QcOps (qc 1 1000) ex_C2 (fun x => x) (qc 7 1) (fun c => let '(i, j, _) := c in qc (Z.of_nat (i * i + 3 * j)) 1) AX (2, 1, 0)%nat.
+Proof.
+  unfold tvd_face_ok. repeat split; try (apply qc_neq; vm_compute; reflexivity).
+Qed.
